@@ -3,7 +3,7 @@ from .. import common, replay
 from ..adapters.world import WorldAdapter
 
 SWITCHES = ['ReplaceBeforeIndex', 'AutoIdSkipsUsed', 'ImmediateDeleteNotifies', 'ClearKeepsSelf',
-            'RelayOnlyDeclared', 'CreateNotifiesReplaced', 'ClearDeadGuards', 'WalkVisitsOnce', 'CreateAttachesInTurn']
+            'RelayOnlyDeclared', 'CreateNotifiesReplaced', 'ClearDeadGuards', 'WalkVisitsOnce', 'CreateAttachesInTurn', 'SharedStaysRegistered']
 
 INVARIANTS = ['MarksHaveRows', 'IndexIsTranspose', 'RowsWellTyped', 'OneOwner', 'QueriesAgree', 'AutoIdFresh',
               'RegisteredIffAttached', 'WorldListensToItself', 'NoBadRelay', 'DrainedWhenEnabled', 'PendingConsistent',
@@ -195,7 +195,7 @@ def repo_tests_validate(res, node='tests'):
                 return [ren(x) for x in v]
             return v
         traces.append({'events': [{kk: ren(vv) for kk, vv in e.items()} for e in r['events']]})
-    K = base(Acts={'create', 'create2', 'createdup', 'add', 'remove', 'delete', 'process', 'clear', 'toggle', 'proc', 'ghost', 'fault'}, MaxQ=1000, **U)
+    K = base(Acts={'create', 'create2', 'createdup', 'shared', 'add', 'remove', 'delete', 'process', 'clear', 'toggle', 'proc', 'ghost', 'fault'}, MaxQ=1000, **U)
     gen = 'WorldTrace_repo'
     defs, consts, ov = [], {}, {}
     for kk, v in K.items():
